@@ -10,7 +10,7 @@ if [[ "$what" == revert:* ]]; then
   c="${what#revert:}"
   git -C /repo show "$c" --format= -- . | git -C /repo apply -R || { echo "cannot revert $c"; exit 3; }
 else
-  git -C /repo apply "$what" || { echo "cannot apply $what"; exit 3; }
+  git -C /repo apply "$(realpath "$what")" || { echo "cannot apply $what"; exit 3; }
 fi
 trap 'git -C /repo checkout -- . ; git -C /repo clean -fdq -- server client glow' EXIT
 ( cd /repo && GOFLAGS=-mod=mod GOPROXY=off go build ./... ) || { echo "MUTANT DOES NOT BUILD: $what"; exit 3; }
